@@ -246,13 +246,15 @@ class BlockingPortal:
         kwargs: dict[str, Any],
         future: Future[T_Retval],
     ) -> None:
-        event_loop_thread_id = self._event_loop_thread_id
+        # This coroutine always runs in the event loop thread; the portal's own thread id
+        # attribute is reset when the portal is stopped
+        event_loop_thread_id = get_ident()
 
         def callback(f: Future[T_Retval]) -> None:
             if f.cancelled():
                 if event_loop_thread_id == get_ident():
                     scope.cancel("the future was cancelled")
-                elif event_loop_thread_id is not None:
+                else:
                     run_sync(
                         scope.cancel, "the future was cancelled", token=self._token
                     )
